@@ -148,6 +148,7 @@ def conclude(prop, tier, seed, mod, cresults, obligations, wall, extra_info=None
             continue
         confirmed, script, output = replay_obligation(ob)
         in_ledger = ledger is not None and ('%s|%s' % (ob.fn, ob.clause)) in ledger.get('discharged', [])
+        only_bounded = 'bounded instance' in (ob.backend or '')
         if confirmed:
             path = write_replay_file(prop, ob, True, script, output)
             violations.append((ob, path, ''))
@@ -230,7 +231,10 @@ def update_ledger(prop):
 def write_evidence(prop, tier, seed, mod, cresults, obligations, wall, rc, violations, known_hits, undecided, extra_info, covers=()):
     os.makedirs(EVIDENCE, exist_ok=True)
     proved = [o for o in obligations if o.status == 'proved']
-    unb = [o for o in obligations if not o.bounded]
+    excused = set(id(ob) for f, ob in known_hits)
+    # obligations that fail only because of a recorded known finding are reported separately (their carve-out
+    # contract carries the proof); they are neither counted as obligations nor as discharged
+    unb = [o for o in obligations if not o.bounded and id(o) not in excused]
     unb_proved = [o for o in unb if o.status == 'proved']
     backends = {}
     for o in proved:
